@@ -83,6 +83,10 @@ class Excel:
         self._handle_cell_identifiers(first)
         self._handle_cell_identifiers(second)
 
+        if base.row is None and first.row is not None and second.row is not None:
+            # a whole column (B:B) next to a bounded area: the similar area starts at the top of that column
+            base.row = 0
+
         return Cell(base.title, base.column + (second.column - first.column), base.row + (second.row - first.row) if first.row is not None or second.row is not None else None)
 
     def _get_vertical_range(self, first: Cell, second: Cell) -> list:
